@@ -24,6 +24,14 @@ class Recorder:
         return value in self.accepted
 
 
+def make_checker(accepted, log, ident):
+    """the same kind of checker as Recorder, as a closure: every one of them has the same __qualname__ / __module__ / code object"""
+    def checker(value):
+        log.append((ident, value))
+        return value in accepted
+    return checker
+
+
 def gen_history(rng, tier):
     n = rng.randint(3, 14 if tier == "quick" else 30)
     names = rng.sample(NAMES, rng.randint(1, 4))
@@ -62,7 +70,9 @@ def run_history(ops):
             if op[0] == "reg":
                 _, name, accepted = op
                 ident = "r%d" % i
-                fc.register(name)(Recorder(accepted, log, ident))
+                # alternately an instance, a closure from one factory, a lambda from one line: "the same function again" by name only
+                maker = [Recorder, make_checker, lambda acc, lg, idn: (lambda value: (lg.append((idn, value)), value in acc)[1])][len(name) % 3]
+                fc.register(name)(maker(accepted, log, ident))
                 current[name] = ident
                 tables[name] = set(accepted)
                 obs.append(None)
